@@ -180,11 +180,22 @@ pub fn cases(ctx: &Ctx) -> Vec<Case> {
         emit(&mut out, &pl, i % 2 == 1, 0);
     }
     if ctx.tier == Tier::Thorough {
-        for mask in 0u32..(1 << (s.len() - 1)) {
+        // all 2^19 segmentations x {sync, async}, aggregated into one case (implementation + oracle only)
+        let mut bad: Option<String> = None;
+        let mut runs = 0u64;
+        'sweep: for mask in 0u32..(1 << (s.len() - 1)) {
             let cs: Vec<usize> = (1..s.len()).filter(|k| mask >> (k - 1) & 1 == 1).collect();
-            let pl = Plan { pdus: small.clone(), stream: s.clone(), complete: true, chunks: cut(&s, &cs), max: 16378, strict: false, n: 2, seg: "exhaustive-all", with_coq: false };
-            emit(&mut out, &pl, mask % 2 == 1, 0);
+            let chunks = cut(&s, &cs);
+            for asyn in [false, true] {
+                let (res, fin, _) = if asyn { run_async(&chunks, 16378, false, 3, [0u32, 2, 3][(mask % 3) as usize]) } else { run_sync(&chunks, 16378, false, 3) };
+                runs += 1;
+                let ok = matches!(&res[0], Some(Ok(p)) if *p == small[0]) && matches!(&res[1], Some(Ok(p)) if *p == small[1])
+                    && matches!(&res[2], Some(Err(50))) && fin.is_empty();
+                if !ok { bad = Some(format!("{} receiver, cut points {:?}", if asyn { "async" } else { "sync" }, cs)); break 'sweep; }
+            }
         }
+        out.push(Case { coq: String::new(), desc: json!({"bucket": "exhaustive-all-2^19", "runs": runs}), key: "exhaustive-all".into(),
+            oracle: match bad { None => Oracle::Holds, Some(d) => Oracle::Fails { class: "segmentation".into(), detail: d } } });
     }
     // ---- generated sequences
     let mut i = 0u64;
